@@ -25,6 +25,9 @@ Inductive zaddflavour := ZaPlain | ZaNX | ZaXX | ZaLT | ZaGT.
 Inductive zrangeby := ZbScore | ZbLex | ZbScoreWS | ZbRevScore | ZbRevLex | ZbRevScoreWS.
 Inductive zstoreop := ZsInter | ZsInterWS | ZsUnion | ZsUnionWS.
 Inductive zstoreto := ZtInter | ZtUnion.
+Inductive bpop := BpL | BpR | BpZMax | BpZMin.
+Inductive evalcmd := EvEval | EvEvalSha | EvEvalRO | EvEvalShaRO | EvFCall | EvFCallRO.
+Inductive popcount := PcSPop | PcSRand | PcLPop | PcRPop.
 Inductive xtrim := XtMaxLen (n : Z) | XtMaxLenApprox (n limit : Z) | XtMinID (id : bytes) | XtMinIDApprox (id : bytes) (limit : Z).
 
 Record set_args := mkSetArgs {
@@ -120,7 +123,28 @@ Inductive call :=
 (* server *)
 | MFunctionLoad (replace : bool) (code : bytes)         (* FunctionLoad, FunctionLoadReplace *)
 | MClientKillByFilter (keys : list bytes)
-| MACLLog (count : Z).
+| MACLLog (count : Z)
+(* second batch *)
+| MZPop (max : bool) (key : bytes) (count : list Z)                       (* ZPopMax, ZPopMin *)
+| MZRangePlain (rev withscores : bool) (key : bytes) (start stop : Z)     (* ZRange, ZRangeWithScores, ZRevRange, ZRevRangeWithScores *)
+| MBPop (w : bpop) (timeout : Z) (keys : list bytes)                      (* BLPop, BRPop, BZPopMax, BZPopMin *)
+| MBRPopLPush (src dst : bytes) (timeout : Z)
+| MLMove (src dst srcpos dstpos : bytes)
+| MBLMove (src dst srcpos dstpos : bytes) (timeout : Z)
+| MXRangeCmd (rev : bool) (stream a b : bytes) (count : option Z)         (* XRange, XRangeN, XRevRange, XRevRangeN *)
+| MXGroupCreate (mkstream : bool) (stream group start : bytes)            (* XGroupCreate, XGroupCreateMkStream *)
+| MXAck (stream group : bytes) (ids : list bytes)
+| MXDel (stream : bytes) (ids : list bytes)
+| MEval (w : evalcmd) (script : bytes) (keys : list bytes) (args : list aval)  (* Eval, EvalSha, EvalRO, EvalShaRO, FCall, FCallRO *)
+| MPopCount (w : popcount) (key : bytes) (count : Z)                      (* SPopN, SRandMemberN, LPopCount, RPopCount *)
+| MZRandMember (withscores : bool) (key : bytes) (count : Z)              (* ZRandMember, ZRandMemberWithScores *)
+| MInterCard (zset : bool) (limit : Z) (keys : list bytes)                (* ZInterCard, SInterCard *)
+| MZMPop (order : bytes) (count : Z) (keys : list bytes)
+| MBZMPop (timeout : Z) (order : bytes) (count : Z) (keys : list bytes)
+| MClientPause (dur : Z)
+| MSlowLogGet (num : Z)
+| MGeoDist (key m1 m2 unit : bytes)
+| MFunctionList (pattern : bytes) (withcode : bool).
 
 (** ---------- go-redis helpers ---------- *)
 Definition kw_ (s : string) : tok := K (bs s).
@@ -223,6 +247,10 @@ Definition g_geosearch (q : geosearch_q) : list tok :=
 
 Definition g_with (wc wd wh : bool) : list tok :=
   (if wc then [kw_ "withcoord"] else []) ++ (if wd then [kw_ "withdist"] else []) ++ (if wh then [kw_ "withhash"] else []).
+
+(** appendArgs with a single nil argument: reflect.ValueOf(nil).Type() panics (go-redis appendArg and the
+    adapter's argToSlice alike) *)
+Definition single_nil (args : list aval) : bool := match args with [ANil] => true | _ => false end.
 
 Definition is_unit_ok (u : bytes) : bool := bytes_eqb u (bs "BYTE") || bytes_eqb u (bs "BIT").
 
@@ -387,6 +415,46 @@ Definition goredis (c : call) : result (list tok) :=
     Ok ([kw_ "function"; kw_ "load"] ++ (if replace then [kw_ "replace"] else []) ++ [D code])
   | MClientKillByFilter keys => Ok ([kw_ "client"; kw_ "kill"] ++ map D keys)
   | MACLLog count => Ok ([kw_ "acl"; kw_ "log"] ++ (if 0 <? count then [zt count] else []))
+  | MZPop max key count =>
+    match count with
+    | [] => Ok [kw_ (if max then "zpopmax" else "zpopmin"); D key]
+    | [n] => Ok [kw_ (if max then "zpopmax" else "zpopmin"); D key; zt n]
+    | _ => Panic
+    end
+  | MZRangePlain rev ws key start stop =>
+    Ok ([kw_ (if rev then "zrevrange" else "zrange"); D key; zt start; zt stop] ++ (if ws then [kw_ "withscores"] else []))
+  | MBPop w timeout keys =>
+    Ok ([kw_ (match w with BpL => "blpop" | BpR => "brpop" | BpZMax => "bzpopmax" | BpZMin => "bzpopmin" end)] ++
+        map D keys ++ [zt (g_format_sec timeout)])
+  | MBRPopLPush src dst timeout => Ok [kw_ "brpoplpush"; D src; D dst; zt (g_format_sec timeout)]
+  | MLMove src dst srcpos dstpos => Ok [kw_ "lmove"; D src; D dst; K srcpos; K dstpos]
+  | MBLMove src dst srcpos dstpos timeout => Ok [kw_ "blmove"; D src; D dst; K srcpos; K dstpos; zt (g_format_sec timeout)]
+  | MXRangeCmd rev stream a b count =>
+    Ok ([kw_ (if rev then "xrevrange" else "xrange"); D stream; D a; D b] ++
+        (match count with Some n => [kw_ "count"; zt n] | None => [] end))
+  | MXGroupCreate mk stream group start =>
+    Ok ([kw_ "xgroup"; kw_ "create"; D stream; D group; D start] ++ (if mk then [kw_ "mkstream"] else []))
+  | MXAck stream group ids => Ok ([kw_ "xack"; D stream; D group] ++ map D ids)
+  | MXDel stream ids => Ok ([kw_ "xdel"; D stream] ++ map D ids)
+  | MEval w script keys args =>
+    if single_nil args then Panic
+    else Ok ([kw_ (match w with EvEval => "eval" | EvEvalSha => "evalsha" | EvEvalRO => "eval_ro" | EvEvalShaRO => "evalsha_ro"
+                           | EvFCall => "fcall" | EvFCallRO => "fcall_ro" end); D script; lent keys] ++ map D keys ++ map g_arg args)
+  | MPopCount w key count =>
+    Ok [kw_ (match w with PcSPop => "spop" | PcSRand => "srandmember" | PcLPop => "lpop" | PcRPop => "rpop" end); D key; zt count]
+  | MZRandMember ws key count => Ok ([kw_ "zrandmember"; D key; zt count] ++ (if ws then [kw_ "withscores"] else []))
+  | MInterCard zset limit keys =>
+    Ok ([kw_ (if zset then "zintercard" else "sintercard"); lent keys] ++ map D keys ++ [kw_ "limit"; zt limit])
+  | MZMPop order count keys =>
+    Ok ([kw_ "zmpop"; lent keys] ++ map D keys ++ [K (lower order); kw_ "count"; zt count])
+  | MBZMPop timeout order count keys =>
+    Ok ([kw_ "bzmpop"; zt (g_format_sec timeout); lent keys] ++ map D keys ++ [K (lower order); kw_ "count"; zt count])
+  | MClientPause dur => Ok [kw_ "client"; kw_ "pause"; zt (g_format_ms dur)]
+  | MSlowLogGet num => Ok [kw_ "slowlog"; kw_ "get"; zt num]
+  | MGeoDist key m1 m2 unit => Ok [kw_ "geodist"; D key; D m1; D m2; K (if is_empty unit then bs "km" else unit)]
+  | MFunctionList pattern withcode =>
+    Ok ([kw_ "function"; kw_ "list"] ++ (if is_empty pattern then [] else [kw_ "libraryname"; D pattern]) ++
+        (if withcode then [kw_ "withcode"] else []))
   end.
 
 End WithFloat.
@@ -469,3 +537,23 @@ Arguments gs_box_unit {F}.
 Arguments gs_sort {F}.
 Arguments gs_count {F}.
 Arguments gs_any {F}.
+Arguments MZPop {F}.
+Arguments MZRangePlain {F}.
+Arguments MBPop {F}.
+Arguments MBRPopLPush {F}.
+Arguments MLMove {F}.
+Arguments MBLMove {F}.
+Arguments MXRangeCmd {F}.
+Arguments MXGroupCreate {F}.
+Arguments MXAck {F}.
+Arguments MXDel {F}.
+Arguments MEval {F}.
+Arguments MPopCount {F}.
+Arguments MZRandMember {F}.
+Arguments MInterCard {F}.
+Arguments MZMPop {F}.
+Arguments MBZMPop {F}.
+Arguments MClientPause {F}.
+Arguments MSlowLogGet {F}.
+Arguments MGeoDist {F}.
+Arguments MFunctionList {F}.
